@@ -7,7 +7,7 @@ import subprocess
 
 from engine import slicer
 from engine.core import Job, VERIF, extract_inputs, array_from, scalar_from
-from engine.routeb import gotocc_cpp, CHECKS, STD, unwindset_from_loops
+from engine.routeb import gotocc_cpp, CHECKS, STD, unwindset_from_loops, mirrored_string_piece
 from engine.selftest import subst
 
 ID = "C09"
@@ -359,6 +359,8 @@ def _build_h1(T, mutant, prefix=False, layout=None):
         hdr, c1 = mirrored_header()
         with open(os.path.join(d, "deps_log.h"), "w") as f:
             f.write(hdr)
+        with open(os.path.join(d, "string_piece.h"), "w") as f:
+            f.write(mirrored_string_piece())
         body, c2 = sliced_unit(mutant)
         with open(os.path.join(d, "unit.cc"), "w") as f:
             f.write(PRELUDE % {"slices": body} + H1 % {"maxrec": SCALED_MAXREC})
@@ -389,6 +391,8 @@ def _build_h2(n1, n2, cut, mutant):
         hdr, c1 = mirrored_header()
         with open(os.path.join(d, "deps_log.h"), "w") as f:
             f.write(hdr)
+        with open(os.path.join(d, "string_piece.h"), "w") as f:
+            f.write(mirrored_string_piece())
         body, c2 = sliced_unit(mutant)
         with open(os.path.join(d, "unit.cc"), "w") as f:
             f.write(PRELUDE % {"slices": body} + H2 % {"maxrec": SCALED_MAXREC})
